@@ -337,6 +337,42 @@ def stepSys (st : DState) (cmd : String) (args : List String) : DState × String
       | none => (st, "bad-op")
   | _, _ => (st, "bad-op")
 
+def parseCand? (tok : String) : Option Cand :=
+  match tok.splitOn ":" with
+  | [c, i, d, w] => do
+      let idx ← parseIdx? i
+      let cost ← parseRat? w
+      let delta ← if d == "nan" then some none else (parseRat? d).map some
+      some { comp := c, idx := idx, delta := delta, cost := cost }
+  | _ => none
+
+def stepRef (st : DState) (cmd : String) (args : List String) : DState × String :=
+  match cmd with
+  -- ref.choose comp:idx:delta:cost ...   (scan order = order given)
+  | "ref.choose" =>
+      match args.mapM parseCand? with
+      | some cs =>
+          match choose cs with
+          | some c => (st, c.comp ++ ":" ++ showIdx c.idx)
+          | none => (st, "none")
+      | none => (st, "bad-op")
+  -- ref.fit maxIter tol level timeUpAt | a:err a:nan n ...
+  | "ref.fit" =>
+      match splitBar args with
+      | [[mi, tol, lvl, tu], steps] =>
+          let parsed := steps.mapM fun t =>
+            if t == "n" then some StepResult.noCandidate
+            else match t.splitOn ":" with
+              | ["a", "nan"] => some (StepResult.activated none)
+              | ["a", e] => (parseRat? e).map fun r => StepResult.activated (some r)
+              | _ => none
+          match mi.toNat?, parseRat? tol, lvl.toNat?, tu.toNat?, parsed with
+          | some m, some t, some l, some tuAt, some ss =>
+              (st, toString (fitLoop m t (fun k => tuAt != 0 && k ≥ tuAt) l ss))
+          | _, _, _, _, _ => (st, "bad-op")
+      | _ => (st, "bad-op")
+  | _ => (st, "bad-op")
+
 def step (st : DState) (line : String) : DState × String :=
   match (line.trimAscii.toString.splitOn " ").filter (· ≠ "") with
   | [] => (st, "")
@@ -346,6 +382,7 @@ def step (st : DState) (line : String) : DState × String :=
       else if cmd.startsWith "poly." then stepPoly st cmd args
       else if cmd.startsWith "sg." then stepSg st cmd args
       else if cmd.startsWith "sys." then stepSys st cmd args
+      else if cmd.startsWith "ref." then stepRef st cmd args
       else (st, "bad-op")
 
 partial def loop (h : IO.FS.Stream) (out : IO.FS.Stream) (st : DState) : IO Unit := do
